@@ -372,7 +372,10 @@ def _mk_atoms(mol):
     import biotite.structure as struc
     n = len(mol["elems"])
     a = struc.AtomArray(n)
-    a.element[:] = mol["elems"] if n else []
+    if n and max(len(e) for e in mol["elems"]) > 2:
+        a.set_annotation("element", np.array(mol["elems"]))       # wider than the default U2 annotation
+    else:
+        a.element[:] = mol["elems"] if n else []
     a.coord[:] = np.array(mol["coords"], dtype=np.float32).reshape(n, 3)
     a.add_annotation("charge", int)
     a.charge[:] = mol["charges"]
@@ -870,6 +873,11 @@ def cases(rng, tier):
         mol["coords"][rng.randrange(n)][rng.randrange(3)] = bad
         ver = rng.choice(["auto", "V2000", "V3000"])
         out.append({"kind": "mol-reject", "ops": [_w_op(mol, ver, 0)], "mol": mol, "ver": ver, "dflt": 0, "expect_reject": True})
+    for _ in range(5 * scale):
+        mol = _mol(rng, 3, 2)
+        mol["elems"][rng.randrange(3)] = rng.choice(["ABCD", "CARBON", "XXXX", "ABC", "UUE"])
+        ver = rng.choice(["auto", "V2000", "V3000"])
+        out.append({"kind": "mol-longelem", "ops": [_w_op(mol, ver, 0)]})
     for _ in range(4 * scale):
         mol = _mol(rng, 3, 2)
         ver, dflt = rng.choice([("V1000", 0), ("auto", 4), ("V3000", 8), ("V2000", 7), ("", 0)])
@@ -889,6 +897,14 @@ def cases(rng, tier):
         if k[1] is not None and (" " in k[1] or k[1] == ""):
             continue           # not encodable in the op line; the oracle stream covers them
         out.append({"kind": "key-invalid", "ops": ["K " + _key_enc(k)]})
+    for _ in range(4 * scale):
+        k = (rng.choice([None, 3]), "nm", rng.choice([None, 5]), rng.choice(["a)b", "x(", "a/b", "a+b", "(", "a,b"]))
+        out.append({"kind": "key-invalid", "ops": ["K " + _key_enc(k)]})
+    # --- metadata values the data block cannot hold: refused
+    for _ in range(8 * scale):
+        md = _metadata(rng, rng.choice([1, 2]))
+        md[-1][1] = rng.choice([[""], ["a", "", "b"], ["> b"], ["a", ">x"], ["  "], ["a", "  > <k>"], ["", "a"], ["a", ""]])
+        out.append({"kind": "metadata-refused", "ops": [_ms_op(md)]})
     # --- metadata
     for _ in range(40 * scale):
         md = _metadata(rng)
@@ -930,6 +946,9 @@ def cases(rng, tier):
     for sc in API_SCENARIOS:
         for _ in range(4 * scale):
             out.append(_api_case(rng, sc))
+    for sc in EDGE:
+        for _ in range((1 if sc in ("empty-file", "v3000-no-atoms", "format-limits") else 5) * scale):
+            out.append(_edge_case(rng, sc))
     for _ in range(10 * scale):
         arom = rng.random() < 0.5
         mol = _aromatic_mol(rng) if arom else _mol(rng, rng.choice([2, 4, 7]), rng.choice([1, 3, 6]), types=[1, 2, 3, 0, 4])
@@ -1268,8 +1287,10 @@ def _oracle_mol(case):
         try:
             lines = write_structure_to_ctab(atoms, struc.BondType(dflt), None if ver == "auto" else ver)
         except Exception as e:  # noqa: BLE001
-            ok_reject = (not fits) or (ver == "V2000" and (n >= 1000 or m >= 1000)) or ver not in ("auto", "V2000", "V3000") \
-                or dflt not in CTAB_EXPRESSIBLE
+            # a refusal is legitimate only with the exception documented for that reason
+            en = type(e).__name__
+            ok_reject = (not fits and en == "BadStructureError") or (ver == "V2000" and (n >= 1000 or m >= 1000) and en == "ValueError") \
+                or (ver not in ("auto", "V2000", "V3000") and en == "ValueError") or (dflt not in CTAB_EXPRESSIBLE and en == "KeyError")
             if not ok_reject:
                 v.append((key + "/write-raises/" + type(e).__name__, f"valid molecule ({n} atoms, {m} bonds) rejected: {e}"))
             continue
@@ -1306,8 +1327,10 @@ def _oracle_key(k, prefix="C18/key"):
         and (re_ is None or re.fullmatch(r"[\w.-]*", re_)) and (n is None or n >= 0) and (ri is None or ri >= 0)
     try:
         key = _key_of(K, k)
-    except Exception as e:  # noqa: BLE001
+    except ValueError as e:
         return [(prefix + "/valid-key-rejected", f"{k}: {e}")] if in_grammar else []
+    except Exception as e:  # noqa: BLE001
+        return [(prefix + "/wrong-exception/" + type(e).__name__, f"{k}: {e}")]
     if not in_grammar:
         if nm is not None and not re.fullmatch(r"[a-zA-Z0-9][\w.]*", nm):
             return [(prefix + "/invalid-name-accepted", f"name {nm!r} is outside the key grammar but accepted")]
@@ -1740,14 +1763,19 @@ def _oracle_api(case):
                 bad = _mk_atoms(B)
                 bad.coord[0, 0] = 1e6
                 snap = _snap_atoms(bad)
-                for call in (lambda: rec.set_structure(bad), lambda: rec.set_structure(_mk_atoms(B), version="V9"),
-                             lambda: rec.metadata.__setitem__("k", ""), lambda: rec.metadata.__setitem__(5, "x"),
-                             lambda: setattr(rec, "metadata", 5)):
+                for call, expected in ((lambda: rec.set_structure(bad), struc.BadStructureError),
+                                       (lambda: rec.set_structure(_mk_atoms(B), version="V9"), ValueError),
+                                       (lambda: rec.metadata.__setitem__("k", ""), ValueError),
+                                       (lambda: rec.metadata.__setitem__("k", "a\n\nb"), ValueError),
+                                       (lambda: rec.metadata.__setitem__(5, "x"), TypeError),
+                                       (lambda: setattr(rec, "metadata", 5), TypeError)):
                     try:
                         call()
                         v.append((P + "/invalid-call-accepted", "a call that must be refused was accepted"))
-                    except Exception:  # noqa: BLE001
+                    except expected:
                         pass
+                    except Exception as e:  # noqa: BLE001
+                        v.append((P + "/wrong-exception", f"{type(e).__name__} instead of {expected.__name__}"))
                     if rec.serialize() != t1:
                         v.append((P + "/refused-call-changed-record", "record text changed although the call raised"))
                         break
@@ -2006,6 +2034,234 @@ def _oracle_api(case):
     return v[:4]
 
 
+# ------------------------------------------------------------------------------------------ excluded regions ("edge")
+# Inputs OUTSIDE the hypotheses of the theorems (WFMol, ValidHeader, MdOk, ValidKey, NoDelim, rs != []).  The format cannot
+# hold them: the code must refuse them with the documented exception — never write a file that is shifted, split,
+# unreadable or reads back as something else.
+EDGE = ["long-element", "non-finite-coordinate", "header-line-break", "delimiter-line", "value-structure", "key-parts",
+        "empty-file", "v3000-no-atoms", "format-limits"]
+LINE_BREAKS = ["\n", "\r", "\x0b", "\x0c", "\x1c", "\x1d", "\x1e", "\x85", " ", " "]
+
+
+def _edge_case(rng, sc=None):
+    sc = sc or rng.choice(EDGE)
+    c = {"kind": "edge", "scenario": sc, "mol": _small_mol(rng, rng.choice([2, 3])), "h": _header(rng), "md": _metadata(rng, 1),
+         "ver": rng.choice([None, "V2000", "V3000"]), "pick": rng.randrange(10 ** 6)}
+    if sc == "long-element":
+        c["elem"] = rng.choice(["ABCD", "Xxxx", "CARBON", "Uuuq", "ABC", "Uue"])
+    elif sc == "non-finite-coordinate":
+        c["value"] = rng.choice(["inf", "-inf", "nan"])
+    elif sc == "header-line-break":
+        c["field"] = rng.choice(["mol_name", "comments", "program", "initials", "energy", "scaling_factors", "registry_number", "dimensions"])
+        br = rng.choice(LINE_BREAKS)
+        c["text"] = rng.choice(["a" + br + "b", br + "a", "a" + br])[: 2 if c["field"] in ("initials", "dimensions") else 6]
+        if not any(b in c["text"] for b in LINE_BREAKS):
+            c["text"] = "a" + br
+    elif sc == "delimiter-line":
+        c["where"] = rng.choice(["mol_name", "comments", "value-first", "value-later", "line2"])
+        c["text"] = "$$$$" + rng.choice(["", "x", " end"])
+        rec = {"header": dict(c["h"], mol_name="rec1"), "mol": c["mol"], "md": c["md"], "ver": None}
+        c["ops"] = ["\t".join(["SE"] + _record_text_lines(rec) + ["#OPS", "H", "rec1", "comments", c["text"]]),
+                    "\t".join(["SE"] + _record_text_lines(rec) + ["#OPS", "R", "rec1", c["text"]])]
+    elif sc == "value-structure":
+        br = rng.choice(LINE_BREAKS[1:])
+        c["value"] = rng.choice(["a\n\nb", "a\n  \nb", "\na", "a\n", "a\n> b", "> <x>", "a\n>b", "  > b", "a" + br + "b", "a\nb" + br, "", "\n"])
+        c["via"] = rng.choice(["setitem", "ctor", "record-ctor", "record-setter"])
+    elif sc == "key-parts":
+        c["key"] = rng.choice([{"number": -7}, {"number": -1, "name": "a"}, {"name": "a", "registry_internal": -3},
+                               {"name": "a", "registry_external": "x y"}, {"name": "a", "registry_external": "(x)"},
+                               {"number": 3, "registry_external": "a)"}, {"name": "a", "registry_external": "a\nb"},
+                               {"name": "a", "registry_external": ""}, {"name": "a", "registry_external": "A-1.b_c"}])
+    return c
+
+
+def _oracle_edge(case):
+    import numpy as np
+    import biotite.structure as struc
+    from biotite.file import DeserializationError, InvalidFileError, SerializationError
+    from biotite.structure.io.mol import Header, Metadata, MOLFile, SDFile, SDRecord
+    from biotite.structure.io.mol.ctab import read_structure_from_ctab, write_structure_to_ctab
+    sc = case["scenario"]
+    P = "C18/edge/" + sc
+    mol, h, md = case["mol"], case["h"], case["md"]
+    v = []
+
+    def sdf_roundtrip(sd):
+        return SDFile.deserialize(sd.serialize())
+
+    with warnings.catch_warnings():
+        warnings.simplefilter("ignore")
+        if sc == "long-element":
+            atoms = _mk_atoms(mol)
+            el = np.array([case["elem"]] + mol["elems"][1:])
+            atoms.set_annotation("element", el)
+            for ver in (None, "V2000"):
+                try:
+                    lines = write_structure_to_ctab(atoms, version=ver)
+                except struc.BadStructureError:
+                    if len(case["elem"]) <= 3:
+                        v.append((P + "/three-characters-refused", f"element {case['elem']!r} fits the three columns but was refused"))
+                    continue
+                except Exception as e:  # noqa: BLE001
+                    v.append((P + "/wrong-exception/" + type(e).__name__, f"{e}"))
+                    continue
+                bad = _audit_v2000(lines, len(mol["elems"]), len(mol["bonds"]))
+                if bad:
+                    v.append(("C18/v2000/shifted-" + bad[0][0], f"element {case['elem']!r}: {bad[0][1]!r}"))
+        elif sc == "non-finite-coordinate":
+            atoms = _mk_atoms(mol)
+            atoms.coord[case["pick"] % len(mol["elems"]), case["pick"] % 3] = float(case["value"])
+            for ver in (None, "V2000", "V3000"):
+                for target in ("ctab", "molfile", "sdrecord"):
+                    try:
+                        if target == "ctab":
+                            write_structure_to_ctab(atoms, version=ver)
+                        elif target == "molfile":
+                            MOLFile().set_structure(atoms, version=ver)
+                        else:
+                            SDRecord().set_structure(atoms, version=ver)
+                        v.append((P + "/accepted", f"coordinate {case['value']} written ({target}, {ver})"))
+                    except struc.BadStructureError:
+                        pass
+                    except Exception as e:  # noqa: BLE001
+                        v.append((P + "/wrong-exception/" + type(e).__name__, f"{e}"))
+        elif sc == "header-line-break":
+            hh = dict(h, **{case["field"]: case["text"]})
+            for how in ("header", "molfile", "sdfile"):
+                try:
+                    if how == "header":
+                        text = _mk_header(hh).serialize()
+                        back = Header.deserialize(text)
+                        ok = back == _mk_header(hh) and len(text.splitlines()) == 3
+                    elif how == "molfile":
+                        f = MOLFile()
+                        f.header = _mk_header(hh)
+                        f.set_structure(_mk_atoms(mol))
+                        buf = io.StringIO()
+                        f.write(buf)
+                        buf.seek(0)
+                        g = MOLFile.read(buf)
+                        ok = g.header == _mk_header(hh) and not _compare(mol, g.get_structure(), 0, CTAB_EXPRESSIBLE, P)
+                    else:
+                        sd = SDFile()
+                        nm = hh["mol_name"]
+                        sd[nm] = _rec_of(hh, mol, md)
+                        back = sdf_roundtrip(sd)
+                        ok = list(back.keys()) == [nm] and not _check_rec(back[nm], hh, mol, md, P)
+                    if not ok:
+                        v.append((P + "/written-and-corrupted", f"{case['field']}={case['text']!r} via {how}: the file does not read back as written"))
+                except (ValueError, SerializationError):
+                    pass                                   # refused when written: what a line-based format must do
+                except (InvalidFileError, DeserializationError, IndexError) as e:
+                    v.append((P + "/written-and-unreadable", f"{case['field']}={case['text']!r} via {how}: written, then {type(e).__name__}"))
+                except Exception as e:  # noqa: BLE001
+                    v.append((P + "/wrong-exception/" + type(e).__name__, f"{e}"))
+                if v:
+                    break
+        elif sc == "delimiter-line":
+            hh = dict(h)
+            mdd = [list(e) for e in md]
+            w = case["where"]
+            if w in ("mol_name", "comments"):
+                hh[w] = case["text"]
+            elif w == "line2":
+                hh["initials"], hh["program"] = "$$", "$$prog"
+            elif w == "value-first":
+                mdd = [[mdd[0][0], [case["text"], "x"]]]
+            else:
+                mdd = [[mdd[0][0], ["x", case["text"]]]]
+            sd = SDFile()
+            try:
+                sd[hh["mol_name"]] = _rec_of(hh, mol, mdd)
+                sd["second"] = _rec_of(dict(h, mol_name="second"), mol, [])
+                back = sdf_roundtrip(sd)
+                if list(back.keys()) != [hh["mol_name"], "second"] or _check_rec(back[hh["mol_name"]], hh, mol, mdd, P):
+                    v.append((P + "/record-split", f"a line starting with '$$$$' ({w}) was written: records {list(back.keys())}"))
+            except (ValueError, SerializationError):
+                pass
+            except (InvalidFileError, DeserializationError, IndexError) as e:
+                v.append((P + "/written-and-unreadable", f"'$$$$' line in {w}: written, then {type(e).__name__}"))
+            except Exception as e:  # noqa: BLE001
+                v.append((P + "/wrong-exception/" + type(e).__name__, f"{e}"))
+        elif sc == "value-structure":
+            val, via = case["value"], case["via"]
+            key = _key_of(Metadata.Key, tuple(md[0][0]))
+            try:
+                if via == "setitem":
+                    m = Metadata()
+                    m[key] = val
+                elif via == "ctor":
+                    m = Metadata({key: val})
+                elif via == "record-ctor":
+                    m = SDRecord(metadata={key: val}).metadata
+                else:
+                    r = SDRecord()
+                    r.metadata = {key: val}
+                    m = r.metadata
+                back = Metadata.deserialize(m.serialize())
+                if list(back.items()) != [(key, val)]:
+                    v.append((P + "/written-and-altered", f"value {val!r} ({via}) written, read back as {[x for _, x in back.items()]}"))
+            except ValueError:
+                pass
+            except DeserializationError as e:
+                v.append((P + "/written-and-unreadable", f"value {val!r} ({via}) written, then {e}"))
+            except Exception as e:  # noqa: BLE001
+                v.append((P + "/wrong-exception/" + type(e).__name__, f"{e}"))
+        elif sc == "key-parts":
+            kw = case["key"]
+            try:
+                k = Metadata.Key(**kw)
+                back = Metadata.Key.deserialize(k.serialize().strip())
+                if back != k:
+                    v.append((P + "/written-and-altered", f"Key({kw}) read back as {back}"))
+            except ValueError:
+                if kw.get("registry_external") in ("", "A-1.b_c"):
+                    v.append((P + "/valid-key-rejected", f"Key({kw})"))
+            except DeserializationError as e:
+                v.append((P + "/written-and-unreadable", f"Key({kw}) accepted and written as a line that cannot be read: {e}"))
+            except Exception as e:  # noqa: BLE001
+                v.append((P + "/wrong-exception/" + type(e).__name__, f"{e}"))
+        elif sc == "empty-file":
+            sd = SDFile()
+            text = sd.serialize()
+            try:
+                back = SDFile.deserialize(text)
+                if len(back) != 0:
+                    v.append((P + "/records-invented", f"{list(back.keys())}"))
+            except (IndexError, InvalidFileError):
+                pass                                       # the reader refuses an empty text (C18_sdf_empty_rejects)
+            except Exception as e:  # noqa: BLE001
+                v.append((P + "/wrong-exception/" + type(e).__name__, f"{e}"))
+        elif sc == "v3000-no-atoms":
+            a = struc.AtomArray(0)
+            a.bonds = struc.BondList(0)
+            try:
+                lines = write_structure_to_ctab(a, version="V3000")
+                back = read_structure_from_ctab(lines)
+                if back.array_length() != 0:
+                    v.append((P + "/atoms-invented", f"{back.array_length()}"))
+            except InvalidFileError:
+                pass                                       # "ATOM block is empty" (C18_v3000_empty_rejects)
+            except Exception as e:  # noqa: BLE001
+                v.append((P + "/wrong-exception/" + type(e).__name__, f"{e}"))
+            lines = write_structure_to_ctab(a)             # V2000 can hold it
+            if read_structure_from_ctab(lines).array_length() != 0:
+                v.append((P + "/v2000", "an empty molecule does not come back empty"))
+        elif sc == "format-limits":
+            # what the format documents it cannot keep: it must come back exactly as the documented rule says, and nothing else moves
+            import datetime
+            t = datetime.datetime(1950 + case["pick"] % 15, 1 + case["pick"] % 12, 1 + case["pick"] % 28, 3, 4, 59)
+            back = Header.deserialize(Header(mol_name=" n ", program="ABCDEFGHIJ", time=t, comments="c ").serialize())
+            want = Header(mol_name="n", program="ABCDEFGH", time=datetime.datetime(t.year + 100, t.month, t.day, 3, 4), comments="c")
+            if back != want:
+                v.append((P + "/header", f"{back} instead of {want}"))
+            rec = SDRecord()
+            rec.metadata["k"] = " a \nb  "
+            if dict(Metadata.deserialize(rec.metadata.serialize()).items()) != {Metadata.Key(name="k"): "a\nb"}:
+                v.append((P + "/value-blanks", "surrounding blanks of value lines are not simply stripped"))
+    return v[:3]
+
+
 def _oracle_molfile(case):
     from biotite.structure.io.mol import MOLFile
     f = MOLFile()
@@ -2018,6 +2274,11 @@ def _oracle_molfile(case):
             exc = _bad_set_structure(f, step[1], step[2])
             if exc is None:
                 return [("C18/molfile/invalid-structure-accepted/" + step[1], "set_structure accepted a structure it must reject")]
+            expected = {"v2000-too-many-atoms": "ValueError", "v2000-too-many-bonds": "ValueError", "coordinate-too-wide": "BadStructureError",
+                        "nan-coordinate": "BadStructureError", "no-bondlist": "BadStructureError", "unknown-version": "ValueError",
+                        "stack": "TypeError", "bad-default-bond": "KeyError"}[step[1]]
+            if type(exc).__name__ != expected:
+                return [("C18/molfile/wrong-exception/" + step[1], f"{type(exc).__name__} instead of {expected}: {exc}")]
             with warnings.catch_warnings():
                 warnings.simplefilter("ignore")
                 try:
@@ -2290,6 +2551,8 @@ def oracle(case):
         return _oracle_sdf_rebuild(case)
     if k == "api":
         return _oracle_api(case)
+    if k == "edge":
+        return _oracle_edge(case)
     if k == "molfile":
         return _oracle_molfile(case)
     if k == "rdkit":
@@ -2310,7 +2573,7 @@ def nontrivial(case, impl_out):
         return len(m["elems"]) >= 2 or bool(m["bonds"]) or any(m["charges"])
     if k == "sdf":
         return len(case["records"]) >= 2
-    if k in ("sdf-edit", "sdf-rebuild", "api"):
+    if k in ("sdf-edit", "sdf-rebuild", "api", "edge", "mol-longelem", "metadata-refused"):
         return True
     if "key" in case:
         return sum(x is not None for x in case["key"]) >= 2
